@@ -127,6 +127,7 @@ func extractC18() *lean {
 	l := newLean("C18", "NutsModel.C18.KeyAct")
 	c18KeyFacts(l)
 	c18xFacts(l)
+	c18JwkFacts(l)
 	_, util := parseFile("vdr/didweb/util.go")
 	enc, ok1 := caseChars(funcDecl(util, "shouldPercentEncode"))
 	dec, ok2 := caseChars(funcDecl(util, "percentDecodeChar"))
